@@ -618,7 +618,8 @@ pub fn merge_evidence(prop: &str, tier: &str, files: &[String]) -> i32 {
         "wall_s": parts.iter().map(|p| p["wall_s"].as_f64().unwrap_or(0.0)).sum::<f64>(),
         "violations": parts.iter().map(|p| p["violations"].as_u64().unwrap_or(0)).sum::<u64>(),
     });
-    let path = format!("{VERIF_DIR}/evidence/{prop}.json");
+    let dir = std::env::var("VERIF_EVIDENCE_DIR").unwrap_or_else(|_| format!("{VERIF_DIR}/evidence"));
+    let path = format!("{dir}/{prop}.json");
     if std::fs::write(&path, serde_json::to_string_pretty(&ev).unwrap()).is_err() {
         println!("MACHINERY: cannot write {path}");
         return 2;
